@@ -58,7 +58,7 @@ def run(ctx):
     rej = vlib.validate_traces(ctx, TRACE[0], TRACE[1], ctx.path("replay.ndjson"), "replay", chunk=30000)
     # (I->S) random on/off profiles on arrival grids of 1..20 ms
     vlib.vh(ctx, ["warm-drive", "--seed", ctx.seed, "--hist", 8 if q else 60, "--small", 1 if q else 0,
-                  "--ramps", 5 if q else 15, "--out", ctx.path("drive.ndjson")], timeout=3000)
+                  "--ramps", 9 if q else 45, "--out", ctx.path("drive.ndjson")], timeout=3000)
     rej += vlib.validate_traces(ctx, TRACE[0], TRACE[1], ctx.path("drive.ndjson"), "drive", chunk=60000, timeout=3000)
     for s in vlib.first_lines(ctx.path("drive.ndjson"), 4)[1:]:
         vlib.add_sample(ctx, "event_of_recorded_trace", s)
